@@ -256,8 +256,61 @@ def pauli_arms(facts, f):
 PAULI_REF = {'I': [], 'X': [('X', 1)], 'Z': [('Z', 1)], 'Y': [('Z', 1), ('X', 1)]}    # Y = i X Z: Z is applied first (next to the circuit), then X, times e^{i pi/2}
 
 
+class _Pos:
+    """within the block, a mismatch of one of `rules` is undecided, not a violation: the behaviour they stand for was decided by evaluation (DESIGN 3.4)"""
+
+    def __init__(self, ck, rules, on, why):
+        self.ck, self.rules, self.on, self.why = ck, rules, on, why
+
+    def __enter__(self):
+        self.saved = dict(getattr(self.ck, 'positive_only', {}) or {})
+        if self.on:
+            d = dict(self.saved)
+            for r in self.rules:
+                d[r] = self.why
+            self.ck.positive_only = d
+
+    def __exit__(self, *a):
+        self.ck.positive_only = self.saved
+        return False
+
+
+def ev_queries(ck):
+    """E3-sim: the three queries evaluated end to end on a concrete state (qxlib/simsem.py) -> {query: decided and held}"""
+    from .. import simsem, minirust
+    facts = ck.facts
+    held = {}
+    total = 0
+    for name, fn in (('amplitude', simsem.ev_amplitude), ('expectation_value', simsem.ev_expectation), ('sample', simsem.ev_sample)):
+        key = SIM + name
+        ck.fn(key)
+        try:
+            res, n = fn(facts)
+        except (minirust.NoEval, minirust.Proceed) as ex:
+            ck.ob3('E3-sim', name + '/evaluation', None, ck.site(key), 'the evaluator declined (%s: %s); the shape rules decide what they can' % (type(ex).__name__, ex))
+            held[name] = False
+            continue
+        except minirust.Panics as ex:
+            ck.ob('E3-sim', name + '/no-panic', False, ck.site(key), 'the query panics on a well-formed input: %s' % ex)
+            held[name] = False
+            continue
+        total += n
+        held[name] = all(ok for ok, _d in res.values())
+        for cl, (ok, d) in res.items():
+            ck.ob('E3-sim', '%s/%s' % (name, cl), ok, ck.site(key), d, sample={'query': name, 'clause': cl, 'cases': n} if cl == 'value' else None)
+    ck.floor('E3-sim-cases', total, 500)
+    ck.note('sim queries: %d evaluated cases (amplitude: every bit string of length 0..qubits+2 on 1..3 qubits, both decomposition paths; expectation value: every Pauli string, '
+            'plain and Hadamard boundary edges; sample: every outcome of the draws)' % total)
+    return held
+
+
 def _run_own(ck):
     facts = ck.facts
+    ck.decided('D0 (evaluation) amplitude, expectation_value, sample and decomp_graph interpreted from their HIR on a host circuit denoting a fixed state with exact complex amplitudes (1..3 qubits): the numbers returned equal '
+               '|<bits|psi>|^2 and <psi|P|psi> computed directly from the state for every bit string / Pauli string (broadcast and exact length, with and without Hadamard boundary edges, both decomposition paths), '
+               'wrong lengths are rejected before the diagram is touched, and over every outcome of the Bernoulli draws the k-th draw uses P(bit k = 1 | bits drawn before) and the drawn bits are what is returned')
+    held = ev_queries(ck)
+    why_ev = 'the behaviour was decided by the end-to-end evaluation E3-sim in this run'
     ck.decided('D1 sampling draws each bit with a CONDITIONAL probability: the Bernoulli parameter combines two marginals (the current one and a loop-carried prefix probability or a second marginal) through a division',
                'D2 malformed queries are rejected, not panicked on: the length validation returning Err(StringWrongLen) dominates the first use of the string; both parsers map every other character to Err',
                'D3 what is printed: amplitude = Re(s * conj(s)); expectation = Re(scalar) of the doubled diagram; Pauli insertion table (I, X(pi), Z(pi), Y = Z(pi) then X(pi) with phase 1/2) preserving the type of the replaced boundary edge; all tasks go through decomp_graph whose two branches differ only in decompose_parallel vs decompose; dispatch tables')
@@ -266,6 +319,9 @@ def _run_own(ck):
     sk = SIM + 'sample'
     f = ck.fn(sk)
     ms = marginal_slices(f)
+    ck.positive_only = dict(getattr(ck, 'positive_only', {}) or {})
+    if held.get('sample'):
+        ck.positive_only['R-DATAFLOW'] = why_ev
     if ms is None:
         ck.violation('R-DATAFLOW', sk + '/shape', ck.site(sk), 'anchor-missing: per-qubit loop with one decomp_graph call and one Bernoulli draw not found')
     else:
@@ -274,6 +330,7 @@ def _run_own(ck):
               'the Bernoulli parameter of bit k is built from a single marginal P(prefix, 1): that is the JOINT probability, not the conditional probability given the bits drawn before (%s)' % ms, sample=ms)
         ck.ob('R-DATAFLOW', sk + '/prefix-update', ms['conditional'] or not base, ck.site(sk),
               'the carried prefix probability must become the joint marginal after a 1 and (old prefix - joint) after a 0; found dependencies %s — a 0-branch that ignores the old prefix is only right for the first bit' % ms.get('prefix_update'))
+    ck.positive_only.pop('R-DATAFLOW', None)
     # ---- D2
     qsem = {}
     for key, et, ef_ in ((SIM + 'amplitude', True, False), (SIM + 'expectation_value', ('const', SIM + 'Pauli::X'), ('const', SIM + 'Pauli::Z'))):
@@ -318,6 +375,9 @@ def _run_own(ck):
         got = {k: v.rsplit('::', 1)[-1] for k, v in tbl.items()}
         ck.ob3('R-TABLE-parse', key, True if (got == want and derr) else None, ck.site(key), 'the parser is not evaluable and its table was read as %s (default Err: %s), expected %s with every other character an error' % (got, derr, want), sample={'table': got})
     # ---- D3
+    if held.get('amplitude') and held.get('expectation_value'):
+        for r_ in ('R-EFFECT', 'R-TABLE-pauli', 'R-EDGE-replace'):
+            ck.positive_only[r_] = why_ev
     af = ck.fn(SIM + 'amplitude')
     ok = False
     for n in hir.nodes(af['hir']):
@@ -365,6 +425,8 @@ def _run_own(ck):
     ia = [i for i, s in enumerate(st) if s.get('k') == 'Let' and s['pat'].get('k') == 'Bind' and s['pat']['name'] == 'g_adj']
     il = [i for i, s in enumerate(st) if s.get('k') == 'For']
     ck.ob('R-EFFECT', SIM + 'expectation_value/adjoint-before-paulis', bool(ia and il) and ia[0] < il[0], ck.site(SIM + 'expectation_value'), 'the adjoint copy must be taken before the Pauli spiders are inserted')
+    for r_ in ('R-EFFECT', 'R-TABLE-pauli', 'R-EDGE-replace'):
+        ck.positive_only.pop(r_, None)
     dg = ck.fn(SIM + 'decomp_graph')
     # every path: full_simp first, then exactly one of decompose_parallel (the `parallel` option is Some) / decompose (it is None), then the scalar is read
     par_id = [p_['id'] for p_, t in zip(dg['params'], dg['inputs']) if 'Option<usize>' in t]
